@@ -19,10 +19,11 @@ REASONS = {
     67: "device-updated-without-a-cause",
     96: "tick-started-earlier-than-pacing-allows", 46: "tick-times-of-a-scheduler-decrease",
     71: "nested-and-flattened-configuration-observe-differently", 73: "harness-flattening-differs-from-coq-flatten",
+    74: "inlined-system-differs-from-coq-flatten",
     91: "disconnected-part-changes-observations",
     99: "simulation-stalled-or-raised",
 }
-CORR = {51, 52, 53, 54, 55, 73}
+CORR = {51, 52, 53, 54, 55, 73, 74}
 
 
 # ------------------------------------------------------------------ flattening (mirror of Oracle/SimOracle.v)
@@ -303,6 +304,10 @@ def main_pairs(pid, tier, seed, prop_codes, prop_mod, serving_files, what, mode,
                   "a sibling system simulation, a nested system), interrupts on both")
                + "; per-device (time, inputs) sequences compared inside Coq; non-trivial = >= 2 devices and >= 3 ticks")
     ck.coverage.update(pairs=len(pairs), disagreements=len(bad))
+    if mode == "flatten":
+        # how many of the nested configurations lie in the scope of the whole-run inlining theorem (decided in Coq)
+        scope = run_shards(pid + "_scope", HEADER, "pair_case", "in_inline_scope", terms, shard_size=12)
+        ck.coverage["pairs_in_scope_of_inline_theorem"] = len(scope)
     ck.sample(dict(first=describe(pairs[-1][0]), second=describe(pairs[-1][1])))
     cases = [p[0] for p in pairs]
     report_codes(ck, pid, what, bad, cases, [r[0] for r in runs], prop_codes | {99},
